@@ -146,15 +146,37 @@ def scripts(tier, seed, scale=1):
                 lines += ["c req %s discard" % ((i + "7a") or "-") for i in ids(w)]
                 lines += ["c dreply 0 4444", "c dreply 0 none", "c dreply 1 none", "c dreply 2 -", "c close", "c dreply 3 46", "c dreply 4 none", "c req 0001 ret:0"]
                 out.append(("c:%d/%s" % (w, "+".join(a.replace(":", "") for a in seq)), lines))
+    # the same over a datagram socket (connection_dispatch.c datagram branch, mpt_outdata_recv / mpt_outdata_reply):
+    # every datagram one message, replies are datagrams; long replies (more than the 256-byte reply buffer)
+    for w in (0, 1, 2, 9):
+        for n in (1, 2):
+            for seq in itertools.product(ACTS, repeat=n):
+                lines = ["c open %d dgram" % w]
+                for k, idh in enumerate(ids(w)):
+                    lines.append("c req %s %s" % ((idh + ["7a", "", "6100", "00"][k % 4]) or "-", ",".join(seq)))
+                lines += ["c req %s discard" % ((i + "7a") or "-") for i in ids(w)]
+                lines += ["c dreply 0 4444", "c dreply 0 none", "c dreply 1 none", "c dreply 2 -", "c await 5", "c send 61", "c close", "c dreply 3 46", "c dreply 4 none",
+                          "c req 0001 ret:0"]
+                out.append(("cd:%d/%s" % (w, "+".join(a.replace(":", "") for a in seq)), lines))
+    for w in (1, 2, 8):
+        idh = gen.hexs([0] * (w - 1) + [9])
+        lines = ["c open %d dgram" % w]
+        for ln in (253, 254, 255, 256, 257, 300, 1000):
+            lines += ["c req %s7a reply:%s" % (idh, "6c" * (ln - w)), "c req %s7a reply:%s,reply:41" % (idh, "6d" * ln), "c req %s7b defer" % idh,
+                      "c dreply %d %s" % ((ln - 253) if ln < 258 else (5 if ln == 300 else 6), "6e" * ln)]
+        lines.append("c close")
+        out.append(("cd:long/%d" % w, lines))
     # requester side of the C connection: requests with fresh ids, the peer's answers (ids with the mark) in every order
     def mk(w, i):
         return gen.hexs(list((i | (1 << (8 * w - 1))).to_bytes(w, "big"))) if w else ""
     for w in (1, 2, 4, 9):
         for n in (1, 2, 3):
-            for order in itertools.product(range(1, n + 2), repeat=min(n + 1, 3)):
+            for order, base in itertools.product(itertools.product(range(1, n + 2), repeat=min(n + 1, 3)), (10, 900010)):
+                if base > 10 and w in (4, 9):
+                    continue
                 lines = ["c open %d" % w]
                 for k in range(n):
-                    lines += ["c await %d" % (10 + k), "c send %02x" % (0x61 + k)]
+                    lines += ["c await %d" % (base + k), "c send %02x" % (0x61 + k)]
                 for j, i in enumerate(order):
                     lines.append("c req %s%02x ret:0" % (mk(w, i), 0x41 + j))
                 lines += ["c req %s66 discard" % mk(w, j + 1) for j in range(n)] + ["c req %s05 discard" % ("00" * (w - 1) if w else "")]
@@ -162,7 +184,7 @@ def scripts(tier, seed, scale=1):
                     # a reply whose id does not decode (9 significant bytes) while handlers wait
                     lines += ["c req 81" + "ff" * 8 + "41 ret:0", "c req 81" + "ff" * 8 + "42 discard"]
                 lines += ["c await 20", "c await 21", "c send 7a", "c req %s55 reply:41" % mk(w, n + 1), "c req %s01%s reply:4142" % ("00" * (w - 1), ""), "c close"]
-                out.append(("cr:%d/%d/%s" % (w, n, "".join(map(str, order))), lines))
+                out.append(("cr:%d/%d/%s%s" % (w, n, "".join(map(str, order)), "F" if base > 10 else ""), lines))
     out.append(("s:long", ["s open 2", "s req 0007" + "61" * 300 + " reply:" + "62" * 300, "s req 0008" + "00" * 40 + " ret:-1", "s close",
                            "s open 256", "s open 255", "s req " + "01" * 255 + "63 replynull,replynull", "s close", "s close", "s req 00 ret:0"]))
     # random histories
@@ -234,15 +256,19 @@ class _XX:
         for w in (1, 2, 8):
             for n in (1, 2, 3):
                 for order in itertools.product(range(1, n + 2), repeat=min(n + 1, 3)):
-                    for via in ("answer", "sync", "mixed"):
+                    # tags from 900000 on: the reply command reports failure (returns -1) — the reply is still consumed
+                    # and the command released, nothing is delivered twice by a later dispatch / sync
+                    for via, base in (("answer", 10), ("sync", 10), ("mixed", 10), ("sync", 900010), ("mixed", 900010), ("answer", 900010)):
+                        if base > 10 and w == 8:
+                            continue
                         lines = ["xr open %d" % w]
                         for k in range(n):
-                            lines += ["xr await %d" % (10 + k), "xr send %02x" % (0x61 + k)]
+                            lines += ["xr await %d" % (base + k), "xr send %02x" % (0x61 + k)]
                         for j, i in enumerate(order):
                             op = via if via != "mixed" else ("sync" if j % 2 else "answer")
                             lines.append("xr %s %s%02x" % (op, mk(w, i), 0x41 + j))
-                        lines += ["xr await 20", "xr send 7a", "xr answer %s55,%s56" % (mk(w, 1), mk(w, n + 1)), "xr close"]
-                        out.append(("xr:%d/%d/%s/%s" % (w, n, "".join(map(str, order)), via), lines))
+                        lines += ["xr sync %s57" % mk(w, 1), "xr await 20", "xr send 7a", "xr answer %s55,%s56" % (mk(w, 1), mk(w, n + 1)), "xr close"]
+                        out.append(("xr:%d/%d/%s/%s%s" % (w, n, "".join(map(str, order)), via, "F" if base > 10 else ""), lines))
         out.append(("xr:idlen", ["xr open 0", "xr idlen 2", "xr await 3", "xr send 61", "xr answer 800141", "xr idlen 128", "xr idlen 129",
                                  "xr idlen 1", "xr await 4", "xr send 62", "xr answer 8242,8142", "xr idlen 0", "xr await 5", "xr close"]))
         out.append(("xr:misc", ["xr open 0", "xr await 1", "xr send 6162", "xr answer 6364", "xr sync 65", "xr close",
